@@ -192,6 +192,10 @@ def build(spec):
         else:
             xs, ys, ss = x[:0], y[:0], F['sid'][:0]
         cat = Table([xs, ys], names=('x', 'y'))
+        if spec.get('stale_radec') and i % 2 == 0:
+            # extra columns a caller's catalog may carry: sky positions from an older WCS solution (not input data)
+            cat['RA'] = 200.0 + 1e-3 * np.arange(len(xs))
+            cat['DEC'] = np.full(len(xs), -45.0)
         if im.get('custom_ids') and len(xs):
             cid = rng.choice(np.arange(-20, 900), size=len(xs), replace=False)
             cat['id'] = cid
@@ -584,6 +588,7 @@ def mk_spec(rng, kinds, gids, refmode, expand, enforce, far_prob=0.15, **kw):
     labels = rng.sample(pool, 3)
     return dict(wseed=rng.randrange(4), images=images, ref=ref, expand=expand, enforce=enforce, fitgeom=fitgeom,
                 minobj=minobj, match='scripted', nclip=rng.choice([0, 3]), ws=rng.choice([1.0, 1.0, 0.2]),
+                stale_radec=rng.random() < 0.3,
                 gid_labels={1: labels[0], 2: labels[1], 3: labels[2]})
 
 
